@@ -24,7 +24,11 @@ EXPLANATION = (
     "or amplitudes). NI-1: batched evaluation splits the walker axis as (n_batch, n_walkers//n_batch), "
     "scans batches, vmaps exactly the per-walker arguments over axis 0 and merges with "
     "reshape(n_walkers) -- per-walker values in walker order. KEYS-3: energy, force bias, density "
-    "matrix and optimiser read no trial parameter the overlap does not define."
+    "matrix and optimiser read no trial parameter the overlap does not define. "
+    "PAIR-1 (multislater): the reference overlap det(phi_s[occ]) and the Green's function "
+    "inv(phi_s[occ]) select the same occupied rows of the same walker block, and block s is selected "
+    "with ref_det[s] / nelec[s]. SYM-1 (noci): the down-spin transition density matrix is the mirror "
+    "image of the up-spin one. "
 )
 NOT_DECIDED = (
     "that the determinant / Wick / CI expansions are the right formulas (coefficients, signs, parity): "
